@@ -337,15 +337,19 @@ static coap_response_t on_response(coap_session_t *session, const coap_pdu_t *se
   (void)session; (void)sent; (void)mid;
   if (c_rsp < 16) c_codes[c_rsp] = coap_pdu_get_code(rcvd);
   c_rsp++;
-  if (exp_strict) {
+  {
     coap_bin_const_t tk = coap_pdu_get_token(rcvd);
-    if (coap_pdu_get_code(rcvd) == COAP_RESPONSE_CODE_CONTENT && !(tk.length == 2 && tk.s[0] == 0xca && tk.s[1] == 0xfe)) {
-      if (!coap_get_data_large(rcvd, &len, &data, &off, &total)) { len = 0; off = 0; }
-      if (off == 0 && len == exp_len && (!len || !memcmp(data, exp_body, len))) c_body_ok++; else c_body_bad++;
-    }
-  } else if (COAP_RESPONSE_CLASS(coap_pdu_get_code(rcvd)) == 2 && coap_get_data_large(rcvd, &len, &data, &off, &total) && len > 100) {
+    int code = coap_pdu_get_code(rcvd);
+    int canary = tk.length == 2 && tk.s[0] == 0xca && tk.s[1] == 0xfe;
     /* an error code (4.08 from the client's own block layer, 5.00) with the payload of one block is not a body */
-    if (off == 0 && len == exp_len && !memcmp(data, exp_body, len)) c_body_ok++; else c_body_bad++;
+    if (exp_strict ? code == COAP_RESPONSE_CODE_CONTENT && !canary : COAP_RESPONSE_CLASS(code) == 2) {
+      if (!coap_get_data_large(rcvd, &len, &data, &off, &total)) { len = 0; off = 0; total = 0; }
+      if (!exp_strict && len <= 100) {}
+      /* visibly a fragment (offset / total say so): the application can tell, this is not "as if complete" */
+      else if (off != 0 || off + len < total) out_put("frag:%zu@%zu/%zu", len, off, total);
+      else if (len == exp_len && (!len || !memcmp(data, exp_body, len))) c_body_ok++;
+      else { c_body_bad++; out_put("badbody:%zu@%zu/%zu", len, off, total); }
+    }
   }
   return COAP_RESPONSE_OK;
 }
